@@ -8,6 +8,7 @@
 (*   cfg    -> new connection (TraceReset)     hello -> Hello              *)
 (*   ack    -> SrvAck ; CliAdopt               send  -> SendMsg            *)
 (*   recv   -> RecvMsg                          end   -> report             *)
+(*   abort  -> AbortedMsg (a message given up after n intermediate chunks)  *)
 (* While the trace is replayed the contract predicates Fits / Accepts /    *)
 (* AcceptsAll / Refuses are evaluated on every message; the ones that are  *)
 (* false are collected in `flags` and printed per trace (ROW), so that one *)
@@ -31,13 +32,13 @@ Rec(r) == [rb |-> r.rb, sb |-> r.sb, mm |-> r.mm, mc |-> r.mc]
 \* reports the first event no action matches.
 Base == /\ flags = {} /\ tid = 0
         /\ ccfg = NoCfg /\ scfg = NoCfg /\ st = "none" /\ hello = NoCfg /\ ack = NoCfg
-        /\ lim = NoLim /\ msg = NoMsg
+        /\ lim = NoLim /\ msg = NoMsg /\ buf = NoBuf
 TInit  == /\ l \in {i \in 1..Len(Log) : Log[i].ev = "cfg"} /\ Base
 TInit1 == /\ l = 1 /\ Base /\ TLCSet(1, 1)
 
 TReset == /\ Ev("cfg") /\ st = "none"
           /\ ccfg' = Rec(Log[l].c) /\ scfg' = Rec(Log[l].s) /\ tid' = Log[l].id
-          /\ st' = "init" /\ hello' = NoCfg /\ ack' = NoCfg /\ lim' = NoLim /\ msg' = NoMsg
+          /\ st' = "init" /\ hello' = NoCfg /\ ack' = NoCfg /\ lim' = NoLim /\ msg' = NoMsg /\ buf' = NoBuf
           /\ flags' = {} /\ l' = l + 1
 
 THello == /\ Ev("hello") /\ Hello /\ hello' = Rec(Log[l])
@@ -47,7 +48,7 @@ THello == /\ Ev("hello") /\ Hello /\ hello' = Rec(Log[l])
 TAck == /\ Ev("ack") /\ st = "helloed"
         /\ ack' = AckOf(hello, scfg) /\ ack' = Rec(Log[l])
         /\ lim' = Limits(ccfg, scfg, hello, ack') /\ st' = "open"
-        /\ l' = l + 1 /\ UNCHANGED <<ccfg, scfg, hello, msg, flags, tid>>
+        /\ l' = l + 1 /\ UNCHANGED <<ccfg, scfg, hello, msg, buf, flags, tid>>
 
 Dir(d) == IF d = "c2s" THEN "c2s" ELSE "s2c"
 Flag(name, ok, m) == IF ok THEN {} ELSE {name \o ":" \o m.dir}
@@ -76,7 +77,10 @@ TSend == /\ Ev("send") /\ st = "open" /\ msg.sent # "wire"
             /\ msg' = [dir |-> d, len |-> e.len, chunks |-> e.chunks,
                        sent |-> IF over THEN "refused" ELSE "wire", recv |-> "-"]
             /\ flags' = flags \cup Judge(msg')
-         /\ l' = l + 1 /\ UNCHANGED <<ccfg, scfg, st, hello, ack, lim, tid>>
+         /\ l' = l + 1 /\ UNCHANGED <<ccfg, scfg, st, hello, ack, lim, buf, tid>>
+
+TAbort == /\ Ev("abort") /\ AbortedMsg(Dir(Log[l].dir), Log[l].n)
+          /\ l' = l + 1 /\ UNCHANGED <<flags, tid>>
 
 Known == {"ok", "chunk-too-large", "too-many-chunks", "message-too-large"}
 TRecv == /\ Ev("recv") /\ RecvMsg
@@ -89,9 +93,9 @@ TRecv == /\ Ev("recv") /\ RecvMsg
 TEnd == /\ Ev("end") /\ st \in {"open", "dead"} /\ msg.sent # "wire"
         /\ PrintT("ROW " \o ToJson([id |-> tid, flags |-> flags]))
         /\ st' = "ended" /\ l' = l + 1
-        /\ UNCHANGED <<ccfg, scfg, hello, ack, lim, msg, flags, tid>>
+        /\ UNCHANGED <<ccfg, scfg, hello, ack, lim, msg, buf, flags, tid>>
 
-TNext == TReset \/ THello \/ TAck \/ TSend \/ TRecv \/ TEnd
+TNext == TReset \/ THello \/ TAck \/ TSend \/ TRecv \/ TAbort \/ TEnd
 TSpec == TInit /\ [][TNext]_tvars
 
 HighWater == TLCSet(1, IF l > TLCGet(1) THEN l ELSE TLCGet(1))
